@@ -146,11 +146,15 @@ func (c *Ctx) ruleFunctionCall(rule string) {
 			}
 			// or through a helper of the package that passes (handler, args) on to reflect.Value.Call
 			if call, ok := in.(*ssa.Call); ok && hcall == nil {
-				if callee := call.Call.StaticCallee(); callee != nil && len(callee.Blocks) > 0 && len(callee.Params) == 2 && len(call.Call.Args) == 2 {
+				if callee := call.Call.StaticCallee(); callee != nil && len(callee.Blocks) > 0 && len(callee.Params) >= 2 && len(call.Call.Args) == len(callee.Params) {
+					isParam := func(v ssa.Value) bool {
+						p, ok := v.(*ssa.Parameter)
+						return ok && p.Parent() == callee
+					}
 					for _, cb := range callee.Blocks {
 						for _, cin := range cb.Instrs {
 							if cc, ok := cin.(*ssa.Call); ok && core.StaticCalleeName(&cc.Call) == "(reflect.Value).Call" &&
-								cc.Call.Args[0] == ssa.Value(callee.Params[0]) && cc.Call.Args[1] == ssa.Value(callee.Params[1]) {
+								isParam(cc.Call.Args[0]) && isParam(cc.Call.Args[1]) {
 								hcall = call
 								reflCallFn = callee
 							}
@@ -241,6 +245,19 @@ func (c *Ctx) ruleFunctionCall(rule string) {
 		for _, w := range wrapped {
 			if es.fn == fn && derivesFromValue(w, hcall, 0) {
 				fromHandler = true
+			}
+			// in a helper that Call hands the handler's results to: the parameter stands for them
+			if es.fn != fn {
+				for _, site := range core.PlainSites(es.fn) {
+					if site.Parent() != fn {
+						continue
+					}
+					for i, a := range site.Call.Args {
+						if i < len(es.fn.Params) && derivesFromValue(a, hcall, 0) && derivesFromValue(w, es.fn.Params[i], 0) {
+							fromHandler = true
+						}
+					}
+				}
 			}
 		}
 		// the branch in which the recover helper reported a panic of the handler: whatever is built there describes
@@ -340,7 +357,8 @@ func (c *Ctx) errorSites(fn *ssa.Function, depth int) []errorSite {
 			continue
 		}
 		if call, i, ok := core.CallResult(core.Unwrap(s.Val)); ok && depth < 3 {
-			if helper := core.StaticBody(&call.Call); helper != nil && helper != fn && helper.Pkg == fn.Pkg &&
+			_, _, isCtor := c.callErrorCtor(call, 0)
+			if helper := core.StaticBody(&call.Call); !isCtor && helper != nil && helper != fn && helper.Pkg == fn.Pkg &&
 				!token.IsExported(helper.Name()) && i == core.ErrorResultIndex(helper.Signature) {
 				out = append(out, c.errorSites(helper, depth+1)...)
 				continue
@@ -422,6 +440,71 @@ func (c *Ctx) ruleHandlerKind(rule string) {
 			}
 		}
 	}
+	// ... and functions that hand out (reflect.Value, error): on every accepting return the value handed out is one for
+	// which the fact holds there (tested, or checked by an ensuring callee whose nil error is known)
+	ensuredAt := func(b *ssa.BasicBlock, hv ssa.Value) bool {
+		if kindFuncAt(b, hv) {
+			return true
+		}
+		for _, cond := range core.CondsAt(b) {
+			x, neq, isNil := core.NilCmp(cond.V)
+			if !isNil || neq == cond.True {
+				continue
+			}
+			if vc, ok := x.(*ssa.Call); ok {
+				for _, callee := range c.M.Callees(&vc.Call) {
+					if pi, has := ensures[callee]; has && pi < len(vc.Call.Args) && vc.Call.Args[pi] == hv {
+						return true
+					}
+				}
+			}
+		}
+		return false
+	}
+	yields := map[*ssa.Function]bool{}
+	for _, fn := range c.M.SortedFuncs(c.scopePkg("schema")) {
+		res := fn.Signature.Results()
+		if res.Len() != 2 || typeStr(res.At(0).Type()) != "reflect.Value" || !core.IsErrorType(res.At(1).Type()) {
+			continue
+		}
+		all, cnt := true, 0
+		for _, r := range core.ReturnsOf(fn) {
+			if c.M.RetNonNil(r, 1) {
+				continue
+			}
+			cnt++
+			if !ensuredAt(r.Block(), core.RetVal(r.Return, 0)) {
+				all = false
+			}
+		}
+		if all && cnt > 0 {
+			yields[fn] = true
+		}
+	}
+	yieldedAt := func(b *ssa.BasicBlock, hv ssa.Value) (bool, string) {
+		ex, ok := hv.(*ssa.Extract)
+		if !ok || ex.Index != 0 {
+			return false, ""
+		}
+		vc, ok := ex.Tuple.(*ssa.Call)
+		if !ok {
+			return false, ""
+		}
+		callee := core.StaticBody(&vc.Call)
+		if callee == nil || !yields[callee] {
+			return false, ""
+		}
+		for _, cond := range core.CondsAt(b) {
+			x, neq, isNil := core.NilCmp(cond.V)
+			if !isNil || neq == cond.True {
+				continue
+			}
+			if e2, isEx := x.(*ssa.Extract); isEx && e2.Tuple == ssa.Value(vc) && e2.Index == 1 {
+				return true, "the handler comes out of " + c.M.Key(callee) + ", whose accepting returns hand out a value checked to be a function, and its error is known to be nil here"
+			}
+		}
+		return false, ""
+	}
 	n := 0
 	for _, fn := range c.functionFuncs() {
 		idx := 0
@@ -455,9 +538,17 @@ func (c *Ctx) ruleHandlerKind(rule string) {
 					}
 				}
 				if !ok2 {
+					if y, w := yieldedAt(b, hv); y {
+						ok2, why = true, w
+					}
+				}
+				if !ok2 {
 					// parameter fact: every call site of fn passes a handler for which the fact holds
 					if p, isParam := hv.(*ssa.Parameter); isParam {
 						ok2, why = c.allCallersEnsureFunc(fn, p, ensures)
+						if !ok2 {
+							ok2, why = c.allCallersYield(fn, p, yieldedAt)
+						}
 					}
 				}
 				if ok2 {
@@ -492,6 +583,32 @@ func kindFuncAt(b *ssa.BasicBlock, hv ssa.Value) bool {
 		}
 	}
 	return false
+}
+
+// allCallersYield: every call site of fn passes, in the position of p, a handler that a yielding function handed out.
+func (c *Ctx) allCallersYield(fn *ssa.Function, p *ssa.Parameter, yieldedAt func(*ssa.BasicBlock, ssa.Value) (bool, string)) (bool, string) {
+	pi := -1
+	for i, q := range fn.Params {
+		if q == p {
+			pi = i
+		}
+	}
+	sites := core.PlainSites(fn)
+	if pi < 0 || len(sites) == 0 {
+		return false, ""
+	}
+	why := ""
+	for _, site := range sites {
+		if pi >= len(site.Call.Args) {
+			return false, ""
+		}
+		ok, w := yieldedAt(site.Block(), site.Call.Args[pi])
+		if !ok {
+			return false, ""
+		}
+		why = w
+	}
+	return true, "every call site passes such a handler: " + why
 }
 
 func (c *Ctx) allCallersEnsureFunc(fn *ssa.Function, p *ssa.Parameter, ensures map[*ssa.Function]int) (bool, string) {
@@ -550,6 +667,11 @@ func (c *Ctx) functionCallArgs(rule string, fn *ssa.Function, hcall *ssa.Call) {
 		return
 	}
 	slice := hcall.Call.Args[1]
+	for _, a := range hcall.Call.Args {
+		if typeStr(a.Type()) == "[]reflect.Value" {
+			slice = a // the recover helper may take more than (handler, arguments)
+		}
+	}
 	ends := []*ssa.BasicBlock{hcall.Block()}
 	// the slice may be built by a helper of the package (the conversion of the arguments, moved into a function of its
 	// own): the stores are examined there, and "before the call" is "before the helper returns the slice"
